@@ -311,8 +311,13 @@ def _judge(p, cfg, devs, ex, info, dev):
                             for b in (s.blocked_report or [])
                             if b['thread'] != 'main' and not b['thread'].startswith(('env', 'delayed'))
                             and (b['thread'].split(':')[0], b['label']) not in idle and b['state'] != 'done'))
-        viol('%s:%s:%s' % ('hang' if s.status == 'timelimit' else 'deadlock',
-                           '/'.join(x.split(' ')[-1] for x in where) or 'main', '+'.join(others) or 'nobody'),
+        # a progress callback delivered by the dispatcher after the disconnect had begun (known finding) can restart what
+        # the teardown has just stopped: such hangs are keyed separately
+        k_ = [e[1] if e[1] != 'cb' else e[2] for e in ev1]
+        late_conn = 'disc_begin' in k_ and any(x in ('connected', 'link_established') for x in k_[k_.index('disc_begin'):])
+        viol('%s:%s:%s%s' % ('hang' if s.status == 'timelimit' else 'deadlock',
+                             '/'.join(x.split(' ')[-1] for x in where) or 'main', '+'.join(others) or 'nobody',
+                             ':after_late_progress' if late_conn else ''),
              'user call did not complete (%s); main blocked at %r; other blocked threads: %r' % (s.status, where, blocked[:4]))
         return
     for e in ev1:
